@@ -173,8 +173,42 @@ def chain (c : Config) : Chain :=
   c.clusters.flatMap clusterChain ++
   c.consumers.flatMap consumerChain
 
-/-- `configureCoordinators` up to the recover handler: the site whose panic reaches it, if any -/
+/-- `configureCoordinators` up to the recover handler: the site whose panic reaches it, if any
+    (modules of one kind taken in the listed order) -/
 def configure (c : Config) : Option Check := firstFail (chain c)
+
+/-! #### which site a refusal may name
+
+Each coordinator configures its modules by ranging over a Go map (`viper.GetStringMap`), i.e. in an
+arbitrary order: when several modules of one kind are invalid, the refusal names the first failing
+site of whichever of them comes first.  `configureSites` is the set of sites the refusal may name. -/
+
+/-- one coordinator: checks made in a fixed order, then its modules in arbitrary order -/
+structure Seg where
+  pre  : Chain
+  mods : List Chain
+
+def Seg.flat (s : Seg) : Chain := s.pre ++ s.mods.flatten
+
+def Seg.sites (s : Seg) : List Check :=
+  match firstFail s.pre with
+  | some x => [x]
+  | none => s.mods.filterMap firstFail
+
+def segs (c : Config) : List Seg :=
+  [⟨if c.haveNotifiers then zkChain c.zk else [], []⟩,
+   ⟨[(decide (c.storage.length > 1), .S1)], c.storage.map storageChain⟩,
+   ⟨[(decide (c.evaluator.length > 1), .E1)], c.evaluator.map evaluatorChain⟩,
+   ⟨[], c.listeners.map listenerChain⟩,
+   ⟨[], if c.haveNotifiers then c.notifiers.map notifierChain else []⟩,
+   ⟨[], c.clusters.map clusterChain⟩,
+   ⟨[], c.consumers.map consumerChain⟩]
+
+def sitesOf : List Seg → List Check
+  | [] => []
+  | s :: rest => if s.sites.isEmpty then sitesOf rest else s.sites
+
+def configureSites (c : Config) : List Check := sitesOf (segs c)
 
 /-! ### the recover handler and `Start` -/
 
